@@ -254,9 +254,9 @@ class Constraint:
                 if (isinstance(node.data, (int, float)) or node.data.startswith("'")):
                     continue
                 features.add(node.data)
-            elif node.is_unary_op():
-                stack.append(node.left)
-            elif node.is_binary_op():
+            else:
+                # any operator node: the aggregate functions (sum, avg, len, floor, ceil) are
+                # neither unary nor binary for the core library, their operands are features too
                 stack.append(node.right)
                 stack.append(node.left)
         return list(features)
